@@ -80,6 +80,14 @@ def handle (st : DState) (kw : String) (toks : List Nat) : DState × String :=
               | .panic p => panicLine p
               | o => "ok " ++ show_ (outcomeToks o)))
         | none => (st, "bad-case")
+      | "validate" =>
+        match run (pair (pair nat bool) (pair (list (pair nat (list nat))) (list nat))) toks with
+        | none => (st, "bad-case")
+        | some ((maxEnd, locked), (ci, ln)) =>
+          let errs := validate w.table w.store maxEnd locked ci ln
+          (st, if errs.isEmpty then "ok" else "refused " ++ show_ [errs.length,
+            (errs.filter (· == .invalidCriteria)).length, (errs.filter (· == .badWildcardEndDate)).length,
+            (errs.filter (· == .importsLockOutdated)).length])
       | "update" =>
         match run modeTable toks with
         | none => (st, "bad-case")
